@@ -211,7 +211,19 @@ def internalize_shape():
     return 'bool', cbool(s == "ifname.startswith('_')andname[1:]notinself.PREDEFINED_NAMES:returnname[1:]|returnname")
 
 
-FACTS = [predefined_names, error_classes, error_names, error_default_is_InternalError, update_messages_ok,
+def array_validate_pads_previous():
+    """ArrayOf.validate: previous is padded with None to the length of the value before zip(value, previous)"""
+    f = find_func(find_class(parse('frappy/datatypes.py'), 'ArrayOf'), 'validate')
+    for n in walk_type(f, ast.If):
+        if _nospace(n.test) == 'previous':
+            st = [_nospace(x) for x in n.body]
+            ok = len(st) == 2 and st[0] == 'previous=tuple(previous)+(None,)*(len(value)-len(previous))' and \
+                st[1].replace('(', '').replace(')', '') == 'returntupleself.members.validatev,pforv,pinzipvalue,previous'
+            return 'bool', cbool(ok)
+    return 'bool', 'false'
+
+
+FACTS = [array_validate_pads_previous, predefined_names, error_classes, error_names, error_default_is_InternalError, update_messages_ok,
          timestamp_clamped_before_update, shorthand_lookup_shape, update_value_order, callback_iterates_copy,
          internalize_shape]
 
@@ -228,5 +240,6 @@ FINGERPRINTS = {
     'ProxyClient.register_callback': lambda: find_func(_pc(), 'register_callback'),
     'ProxyClient.unregister_callback': lambda: find_func(_pc(), 'unregister_callback'),
     'ProxyClient.updateValue': lambda: find_func(_pc(), 'updateValue'),
+    'datatypes.ArrayOf.validate': lambda: find_func(find_class(parse('frappy/datatypes.py'), 'ArrayOf'), 'validate'),
     'errors.make_secop_error': lambda: find_func(parse(ERRORS), 'make_secop_error'),
 }
